@@ -85,6 +85,7 @@ class Body:
         self.arg_count = j["arg_count"]
         self.n = len(self.blocks)
         self.ssa_split = []
+        self.threaded = 0
         self._raw = None
         self._reset()
         if ssa:
@@ -101,26 +102,44 @@ class Body:
         self._ba = None
 
     def _split_reassigned(self):
-        """flow-sensitive values for re-assigned user variables: see purlsa.ssa"""
+        """normal form of the MIR used by every analysis: materialised booleans threaded (purlsa.thread), re-assigned user
+        variables split into versions (purlsa.ssa).  Both are semantics-preserving; the compiler's MIR stays in self.j."""
+        import copy
+        private = False
+        has_bool_store = False
         cnt = {}
         for bl in self.blocks:
             if bl["cleanup"]:
                 continue
             for st in bl["stmts"]:
                 if st["s"] == "assign" and not st["place"]["proj"]:
-                    cnt[st["place"]["l"]] = cnt.get(st["place"]["l"], 0) + 1
+                    l = st["place"]["l"]
+                    cnt[l] = cnt.get(l, 0) + 1
+                    if bl["term"]["t"] == "goto" and st["rv"]["r"] == "use" and st["rv"]["op"]["o"] == "const" and isinstance(st["rv"]["op"]["c"].get("v"), bool):
+                        has_bool_store = True
             t = bl["term"]
             if t["t"] == "call" and not t["dest"]["proj"]:
                 cnt[t["dest"]["l"]] = cnt.get(t["dest"]["l"], 0) + 1
-        if not any(c >= 2 and l > self.arg_count and self.locals[l]["ty"] != "bool" for l, c in cnt.items()):
+        if has_bool_store:
+            from . import thread
+            self.blocks = copy.deepcopy(self.blocks)
+            self.locals = copy.deepcopy(self.locals)
+            private = True
+            self._reset()
+            self.threaded = thread.thread_bools(self)
+            self.n = len(self.blocks)
+            self._reset()
+        if not any(c >= 2 and l > self.arg_count for l, c in cnt.items()):
+            self.ssa_split = ["<threaded>"] if private and self.threaded else []
             return
         from . import ssa
         if not ssa.candidates(self):
+            self.ssa_split = ["<threaded>"] if private and self.threaded else []
             return
-        import copy
-        self.blocks = copy.deepcopy(self.j["blocks"])
-        self.locals = copy.deepcopy(self.j["locals"])
-        self._reset()
+        if not private:
+            self.blocks = copy.deepcopy(self.blocks)
+            self.locals = copy.deepcopy(self.locals)
+            self._reset()
         self.ssa_split = ssa.split_locals(self)
         self.n = len(self.blocks)
         self._reset()
@@ -143,7 +162,7 @@ class Body:
         return sp.get("line")
 
     def site(self, bb):
-        return "%s:%s" % (self.file(), self.line_of(bb))
+        return "%s:%s" % (self.blocks[bb].get("file") or self.file(), self.line_of(bb))
 
     def debug_name(self, local):
         for d in self.j["debug"]:
